@@ -9,6 +9,8 @@ import (
 
 	corev1 "k8s.io/api/core/v1"
 	metav1 "k8s.io/apimachinery/pkg/apis/meta/v1"
+	"k8s.io/apimachinery/pkg/runtime"
+	"k8s.io/client-go/tools/cache"
 
 	execution "github.com/furiko-io/furiko/apis/execution/v1alpha1"
 	"github.com/furiko-io/furiko/pkg/execution/taskexecutor/podtaskexecutor"
@@ -58,6 +60,12 @@ type monitor struct {
 	persistedSuccess map[string]bool
 	createdFor       map[string]string // Pod UID -> UID of the Job the job controller created it for
 	foreign  map[string]string // planted Pod key -> name of the Job whose task name it occupies
+
+	// midBefore: what the controller's caches held, when the reconcile that is running
+	// began, for every key that a mid-reconcile delivery has changed since
+	// ("resource|key" -> object, nil = absent). Emptied when a reconcile begins or ends.
+	midBefore map[string]runtime.Object
+	viewStep  bool // the cache accessors answer as of the beginning of the running reconcile
 
 	seenRestarts int
 	bound        *restartBound
@@ -112,16 +120,21 @@ func (m *monitor) successKnown(k string) bool {
 			}
 		}
 	}
-	if cp := m.ctrlCachedPod(key); cp != nil {
-		return string(cp.UID) == uid && cp.Status.Phase == corev1.PodSucceeded
-	}
-	if ref != nil && ref.FinishTimestamp == nil {
-		if lp := m.r.w.API.Get(sim.ResPods, key); lp != nil {
-			p := lp.(*corev1.Pod)
-			return string(p.UID) == uid && p.Status.Phase == corev1.PodSucceeded
+	visible := func() bool {
+		if cp := m.ctrlCachedPod(key); cp != nil {
+			return string(cp.UID) == uid && cp.Status.Phase == corev1.PodSucceeded
 		}
+		if ref != nil && ref.FinishTimestamp == nil {
+			if lp := m.r.w.API.Get(sim.ResPods, key); lp != nil {
+				p := lp.(*corev1.Pod)
+				return string(p.UID) == uid && p.Status.Phase == corev1.PodSucceeded
+			}
+		}
+		return false
 	}
-	return false
+	// used by oracles that forbid an action: with a watch event arriving in the middle
+	// of the judged reconcile, the success must be visible in what it read before, too
+	return visible() && m.atStepStart(visible)
 }
 
 type podCreate struct {
@@ -133,8 +146,41 @@ type podCreate struct {
 
 func newMonitor(r *e2run) *monitor {
 	return &monitor{r: r, labels: map[string]bool{}, userEdited: map[string]bool{}, userEditSeq: map[string]int{}, finishedSeq: map[string]int{}, podCreates: map[string][]podCreate{},
-		everTasks: map[string]map[string]bool{}, rejectedJobs: map[string]bool{}, jobCtlWrote: map[string]bool{}, startedAt: map[string]time.Time{}, observed: map[string]int{}, persistedSuccess: map[string]bool{}, createdFor: map[string]string{}, foreign: map[string]string{}}
+		everTasks: map[string]map[string]bool{}, rejectedJobs: map[string]bool{}, jobCtlWrote: map[string]bool{}, startedAt: map[string]time.Time{}, observed: map[string]int{}, persistedSuccess: map[string]bool{}, createdFor: map[string]string{}, foreign: map[string]string{}, midBefore: map[string]runtime.Object{}}
 }
+
+// onMid records what a cache held for a key before a mid-reconcile delivery
+// changes it (first change per reconcile only: that is the state the reconcile
+// may have read).
+func (m *monitor) onMid(res sim.Res, key string, old runtime.Object) {
+	k := string(res) + "|" + key
+	if _, ok := m.midBefore[k]; !ok {
+		m.midBefore[k] = old
+	}
+}
+
+// reconcileBoundary is called before and after every reconcile step.
+func (m *monitor) reconcileBoundary() {
+	if len(m.midBefore) > 0 {
+		m.midBefore = map[string]runtime.Object{}
+	}
+}
+
+// atStepStart evaluates f against the controller's caches as they were when the
+// running reconcile began. A reconciler reads its caches at some point between
+// the beginning of its sync and the write that is being judged; with a watch event
+// arriving in between, what it "can know" is one of the two states. Oracles that
+// justify an action accept either state; oracles that forbid an action demand
+// that both states forbid it.
+func (m *monitor) atStepStart(f func() bool) bool {
+	if len(m.midBefore) == 0 {
+		return f()
+	}
+	m.viewStep = true
+	defer func() { m.viewStep = false }()
+	return f()
+}
+func (m *monitor) midChanged() bool { return len(m.midBefore) > 0 }
 
 func (m *monitor) on(p string) bool { return m.props == nil || m.props[p] }
 func (m *monitor) label(s string)   { m.labels[s] = true }
@@ -199,31 +245,78 @@ func (m *monitor) jobByUID(uid string) *execution.Job {
 
 // ctrlCachedJobs returns the Jobs in the controller process's Job cache.
 func (m *monitor) ctrlCachedJobs() []*execution.Job {
-	if m.r.w.Ctrl == nil {
-		return nil
-	}
 	var out []*execution.Job
-	for _, o := range m.r.w.Ctrl.Informer(sim.ResJobs).GetIndexer().List() {
+	for _, o := range m.ctrlCachedList(sim.ResJobs) {
 		out = append(out, o.(*execution.Job))
 	}
 	return out
 }
 
-func (m *monitor) ctrlCachedPod(key string) *corev1.Pod {
+// ctrlCachedPods returns the Pods in the controller process's Pod cache.
+func (m *monitor) ctrlCachedPods() []*corev1.Pod {
+	var out []*corev1.Pod
+	for _, o := range m.ctrlCachedList(sim.ResPods) {
+		out = append(out, o.(*corev1.Pod))
+	}
+	return out
+}
+
+func (m *monitor) ctrlCachedList(res sim.Res) []runtime.Object {
 	if m.r.w.Ctrl == nil {
 		return nil
 	}
-	if o := m.r.w.Ctrl.Informer(sim.ResPods).Cached(key); o != nil {
+	var out []runtime.Object
+	seen := map[string]bool{}
+	for _, o := range m.r.w.Ctrl.Informer(res).GetIndexer().List() {
+		ro := o.(runtime.Object)
+		if m.viewStep {
+			key, _ := cache.MetaNamespaceKeyFunc(o)
+			seen[key] = true
+			if old, ok := m.midBefore[string(res)+"|"+key]; ok {
+				if old != nil {
+					out = append(out, old)
+				}
+				continue
+			}
+		}
+		out = append(out, ro)
+	}
+	if m.viewStep { // removed from the cache by a mid-reconcile delivery
+		var ks []string
+		for k, old := range m.midBefore {
+			if old != nil && strings.HasPrefix(k, string(res)+"|") && !seen[strings.TrimPrefix(k, string(res)+"|")] {
+				ks = append(ks, k)
+			}
+		}
+		sort.Strings(ks)
+		for _, k := range ks {
+			out = append(out, m.midBefore[k])
+		}
+	}
+	return out
+}
+
+func (m *monitor) ctrlCached(res sim.Res, key string) runtime.Object {
+	if m.r.w.Ctrl == nil {
+		return nil
+	}
+	if m.viewStep {
+		if old, ok := m.midBefore[string(res)+"|"+key]; ok {
+			return old
+		}
+	}
+	return m.r.w.Ctrl.Informer(res).Cached(key)
+}
+
+func (m *monitor) ctrlCachedPod(key string) *corev1.Pod {
+	if o := m.ctrlCached(sim.ResPods, key); o != nil {
 		return o.(*corev1.Pod)
 	}
 	return nil
 }
 
 func (m *monitor) ctrlCachedJob(key string) *execution.Job {
-	if m.r.w.Ctrl == nil {
-		return nil
-	}
-	if o := m.r.w.Ctrl.Informer(sim.ResJobs).Cached(key); o != nil {
+	if o := m.ctrlCached(sim.ResJobs, key); o != nil {
 		return o.(*execution.Job)
 	}
 	return nil
@@ -293,6 +386,9 @@ func (m *monitor) onJobEntry(e *sim.Entry) {
 			// The controller deletes in the same sync in which it computes the finished
 			// status, before writing it: judge on what it could compute from its caches.
 			fin = m.knowableFinished(before)
+			if fin == nil && m.midChanged() {
+				m.atStepStart(func() bool { fin = m.knowableFinished(before); return true })
+			}
 		}
 		if fin == nil {
 			// a foreign Pod on one of its task names makes the Job AdmissionError within the same sync
@@ -356,9 +452,12 @@ func (m *monitor) onJobEntry(e *sim.Entry) {
 					if sa := k.Spec.StartPolicy.StartAfter; sa != nil && sa.Time.After(now) {
 						continue
 					}
-					ck := m.ctrlCachedJob(keyOf(k))
-					if ck == nil || !isQueued(ck) || hasAdmErr(ck) {
-						continue // not (yet) knowable to the controller
+					knownQueued := func() bool {
+						ck := m.ctrlCachedJob(keyOf(k))
+						return ck != nil && isQueued(ck) && !hasAdmErr(ck)
+					}
+					if !knownQueued() || !m.atStepStart(knownQueued) {
+						continue // not (yet) knowable to the controller (now, or when this sync listed the queue)
 					}
 					m.fail("C06", "fifo", "Enqueue Job %s (created %v) started while earlier Job %s (created %v), already due, is still queued", e.Key, after.CreationTimestamp.UTC(), k.Name, k.CreationTimestamp.UTC())
 				}
@@ -382,10 +481,19 @@ func (m *monitor) onJobEntry(e *sim.Entry) {
 						active[j.Name] = true
 					}
 				}
-				for _, j := range m.ctrlCachedJobs() {
-					if j.UID != after.UID && jcUIDOf(j) == string(jc.UID) && isActive(j) {
-						active[j.Name] = true // finished in the API but not yet known to the controller
+				cachedActive := func() bool {
+					for _, j := range m.ctrlCachedJobs() {
+						if j.UID != after.UID && jcUIDOf(j) == string(jc.UID) && isActive(j) {
+							active[j.Name] = true // finished in the API but not yet known to the controller
+						}
 					}
+					return true
+				}
+				cachedActive()
+				if m.midChanged() {
+					// the sync read its counter before a watch event lowered it in mid-reconcile
+					m.atStepStart(cachedActive)
+					m.label("rejected-with-mid-reconcile-delivery")
 				}
 				if int64(len(active)) < max {
 					m.fail("C06", "forbid-rejected-below-limit", "Forbid Job %s refused while only %d Job(s) of %s could be active (maxConcurrency %d)", e.Key, len(active), jc.Name, max)
@@ -736,7 +844,9 @@ func (m *monitor) onPodEntry(e *sim.Entry) {
 			}
 		}
 		// (5) nothing is created once the controller can know the Job is killed / refused / being deleted
-		if cj := m.ctrlCachedJob(keyOf(job)); cj != nil {
+		var cj *execution.Job
+		m.atStepStart(func() bool { cj = m.ctrlCachedJob(keyOf(job)); return true }) // as the sync read it
+		if cj != nil {
 			switch {
 			case cj.Spec.KillTimestamp != nil:
 				m.fail("C08", "created-after-kill", "Pod %s created although the Job carries a kill timestamp", p.Name)
@@ -776,7 +886,11 @@ func (m *monitor) checkDeleteJustified(e *sim.Entry, p *corev1.Pod, job *executi
 		m.deadlineCrossed = true
 	}
 	// the kill time as far as the controller can know it (a later edit may not have reached its cache)
-	if cj := m.ctrlCachedJob(keyOf(job)); cj != nil && cj.Spec.KillTimestamp != nil && !cj.Spec.KillTimestamp.Time.After(now) {
+	killCached := func() bool {
+		cj := m.ctrlCachedJob(keyOf(job))
+		return cj != nil && cj.Spec.KillTimestamp != nil && !cj.Spec.KillTimestamp.Time.After(now)
+	}
+	if killCached() || m.atStepStart(killCached) {
 		reasons = append(reasons, "kill(cached)")
 	}
 	if job.DeletionTimestamp != nil {
@@ -786,8 +900,11 @@ func (m *monitor) checkDeleteJustified(e *sim.Entry, p *corev1.Pod, job *executi
 	if job.Spec.Template != nil && job.Spec.Template.TaskPendingTimeoutSeconds != nil {
 		pending = *job.Spec.Template.TaskPendingTimeoutSeconds
 	}
-	cp := m.ctrlCachedPod(keyOf(p))
-	notRunning := cp == nil || cp.Status.Phase == corev1.PodPending || cp.Status.Phase == ""
+	cachedNotRunning := func() bool {
+		cp := m.ctrlCachedPod(keyOf(p))
+		return cp == nil || cp.Status.Phase == corev1.PodPending || cp.Status.Phase == ""
+	}
+	notRunning := cachedNotRunning() || m.atStepStart(cachedNotRunning)
 	if tr := findTaskRef(job, p.Name); tr != nil && tr.RunningTimestamp != nil {
 		notRunning = false
 	}
@@ -804,7 +921,7 @@ func (m *monitor) checkDeleteJustified(e *sim.Entry, p *corev1.Pod, job *executi
 	}
 	if ps := job.Status.ParallelStatus; ps != nil && ps.Complete {
 		reasons = append(reasons, "strategy-decided")
-	} else if m.strategyDecidedKnowable(job) {
+	} else if m.strategyDecidedKnowable(job) || m.atStepStart(func() bool { return m.strategyDecidedKnowable(job) }) {
 		reasons = append(reasons, "strategy-decided")
 	}
 	if e.Force && p.DeletionTimestamp != nil {
@@ -847,8 +964,7 @@ func (m *monitor) knowableFinished(job *execution.Job) *execution.JobConditionFi
 		}
 	}
 	var ts []jobtasks.Task
-	for _, o := range m.r.w.Ctrl.Informer(sim.ResPods).GetIndexer().List() {
-		cp := o.(*corev1.Pod)
+	for _, cp := range m.ctrlCachedPods() {
 		if ref := metav1.GetControllerOf(cp); ref != nil && ref.UID == cj.UID {
 			ts = append(ts, podtaskexecutor.NewPodTask(cp, nil)) // recorded or adoptable in this very sync
 		}
@@ -912,8 +1028,7 @@ func (m *monitor) strategyDecidedKnowable(job *execution.Job) bool {
 	}
 	indexes := parallel.GenerateIndexes(par)
 	if m.r.w.Ctrl != nil {
-		for _, o := range m.r.w.Ctrl.Informer(sim.ResPods).GetIndexer().List() {
-			cp := o.(*corev1.Pod)
+		for _, cp := range m.ctrlCachedPods() {
 			if ref := metav1.GetControllerOf(cp); ref == nil || ref.UID != cj.UID || findTaskRef(cj, cp.Name) != nil {
 				continue
 			}
